@@ -96,7 +96,8 @@ CHECKS = {
         'technique': 'exhaustive neighbourhood enumeration around issued tokens (all single-bit flips, single-character edits, splices, truncations, chosen plaintexts, ages) under a virtual clock',
         'text': 'Every presentation of the enumeration is checked on the real session factory: acceptance must be explained by the decoded content of a token this instance issued within its lifetime and must return exactly its identity; every issued token is accepted inside its lifetime.',
         'note': 'Forgery resistance is covered as the complete 1-edit neighbourhood of issued tokens, not as a cryptographic proof; nonce uniqueness is statistical.',
-        'parts': [RwTest('tokens', 'cmd/whawty-auth', ['harness/agentseq'], AGENT_SEQ, '^TestC07$')],
+        'parts': [RwTest('tokens', 'cmd/whawty-auth', ['harness/agentseq'], AGENT_SEQ, '^TestC07$'),
+                  RwTest('race', 'cmd/whawty-auth', ['harness/agentseq'], AGENT_SEQ, '^TestRaceC07$', race=True)],
     },
     'C11': {
         'level': 'model_checking',
